@@ -560,6 +560,68 @@ def check_C19(chk):
     for e in xs[0]:
         e['base'] = 1
     judge_o(chk, 'TV_Conc', [xs[0] + [e for e in xs[1] if e.get('e') != 'Reset']] if len(xs) > 1 else xs, 'history: ')
+    # (4) the library as one system: cross-family multi-object histories generated by TLC from MC_System, replayed and
+    #     validated by every trace specification at once (foreign events are stuttering steps for each of them)
+    chk.add_model('MC_System', tlc_model(chk.wd, 'MC_System', cfg='MC_System', workers=4))
+    from fam_hash import annotate
+    from fam_prng import annotate_ctl, build_prng_driver
+    plans = sim_plans(chk, 'MC_System', 'MC_System_sim', 30 if chk.thorough else 10, 30, chk.seed % 100000)
+    exe3 = build_prng_driver(chk)
+    groups = []
+    for pi, p in enumerate(plans):
+        g = ["script clear=1 items=" + '/'.join(script_items(r, [r.choice(['full', 'full', 'short', 'none']) for _ in range(12)]))]
+        keys = {}
+        for k, o in enumerate(p):
+            i, kind, ob, n = f"y{pi}-{k}", o['kind'], o['obj'], o['arg']
+            if kind == 'hash':
+                g.append({'init': f"hinit id={i} obj={ob}", 'use': f"hupdate id={i} obj={ob} d={datav(r, n) if n else '-'} op=0",
+                          'final': f"hfinal id={i} obj={ob} op=0", 'free': f"hfree id={i} obj={ob}"}[o['op']])
+            elif kind == 'hmac':
+                if o['op'] == 'init':
+                    keys[ob] = datav(r, r.choice([5, 32, 64, 70]))
+                kk = keys.get(ob, '-')
+                g.append({'init': f"hminit id={i} obj={ob} k={kk}", 'use': f"hmupdate id={i} obj={ob} d={datav(r, n) if n else '-'}",
+                          'final': f"hmfinal id={i} obj={ob} k={kk}", 'free': f"hmfree id={i} obj={ob}"}[o['op']])
+            elif kind == 'hkdf':
+                if o['op'] == 'final':
+                    continue
+                g.append({'init': f"hkextract id={i} obj={ob} key={datav(r, 12)} salt={datav(r, 9)}",
+                          'use': f"hkexpand id={i} obj={ob} info=0a0b len={n}", 'free': f"hkfree id={i} obj={ob}"}[o['op']])
+            elif kind == 'prng':
+                if o['op'] == 'final':
+                    continue
+                g.append({'init': f"pinit id={i} obj={ob} custom={datav(r, 3)} src=cb ctl=0",
+                          'use': (f"pgen id={i} obj={ob} size={n} ctl=0" if k % 3 else f"pfeed id={i} obj={ob} d={datav(r, n) if n else '-'} ctl=0"),
+                          'free': f"pfree id={i} obj={ob}"}[o['op']])
+            else:
+                f = o['op']
+                if f.startswith(('enc', 'siv')):
+                    v = int(f[3:])
+                    g.append(f"enc id={i} mode={'aead' if f.startswith('enc') else 'siv'} v={v} k={r.hex(v // 8)} n={r.hex(12)} "
+                             f"ad={datav(r, n % 7) if n % 7 else '-'} m={datav(r, n) if n else '-'} keep=0")
+                elif f == 'hash':
+                    g.append(f"hash id={i} m={datav(r, n) if n else '-'} learn=0")
+                elif f == 'hmac':
+                    g.append(f"hmac id={i} k={datav(r, 70)} m={datav(r, n) if n else '-'}")
+                elif f == 'hkdf':
+                    g.append(f"hkdf id={i} len={n + 1} key={datav(r, 9)} salt={datav(r, 70)} info=-")
+                elif f == 'pbkdf2':
+                    g.append(f"pbkdf2 id={i} len={n + 1} count=2 pw={datav(r, 70)} salt={datav(r, 4)}")
+        groups.append(g)
+    sx = run_exec_groups(exe3, groups)
+    annotate(sx, groups)
+    annotate_ctl(sx, groups)
+    chk.cov['system_histories'] = len(groups)
+    from fam_cipher import steps_cost
+    from fam_hash import hcost
+    from fam_prng import pcost
+    for module, cost in (('TV_Cipher', steps_cost), ('TV_Hash', hcost), ('TV_Prng', pcost), ('TV_Obs', lambda e: 1)):
+        res = validate(chk.wd, module, sx, cost=cost)
+        chk.add_validation(module, res, sx)
+        for (xi, ev, mm) in res['mismatches'][:4]:
+            chk.violation(f"system history: event {ev.get('id')} ({ev.get('e')}) rejected by {module}: {json.dumps(trim(mm.get('expected'), 20))[:200]}",
+                          dict(trace_spec=module, plan=[f"reset id=x{xi}"] + groups[xi], event=trim(ev, 40), expected=trim(mm.get('expected'), 40)))
+    chk.sample(plans[0][:8])
     chk.finish(
         rule="MC_Conc: TLC explores every interleaving of 3 threads x 3 calls on disjoint objects where each call may touch every "
              "cell of Globals and the heap if imported; Globals and Imports are computed from the object files built from the "
@@ -567,7 +629,8 @@ def check_C19(chk):
              "NoGlobals and NoHeap are decided for this code; dynamically a 16-thread workload over all API families on a "
              "ThreadSanitizer build must give per-thread results equal to serial execution (TV_Conc), system-seeded generators "
              "must differ, and calls repeated after / between unrelated calls (same lengths, reused addresses) must give the "
-             "same outputs",
+             "same outputs; MC_System (Isolation, UsedWhileLive) generates cross-family multi-object histories that are "
+             "replayed and validated by TV_Cipher, TV_Hash, TV_Prng and TV_Obs at once",
         assumptions=["TLC does not schedule native threads: instruction-level interleavings of the real code are sampled by the OS; "
                      "the deterministic part is the symbol-table binding",
                      "function-local static const tables (read-only sections) are not state"])
